@@ -3,19 +3,23 @@
 C12's responses, damaged: every truncation point from the first body byte to the last framing
 byte, single-byte corruptions of chunk-size lines and of the compressed stream; read through every
 API (read(), loops of read(n) / read1(n) / read1() / readinto(k), stream, read_chunked, iteration,
-.data, preload, and mixed prefixes); then the connection is given back and a second request is made
-on the same pool.
+.data, preload, and mixed prefixes) or thrown away with drain_conn(); then the connection is given
+back and a second request is made on the same pool.
 
 A *lenient reference reader* (DESIGN C13 Interpretation) written here from the RFC, independent of
 urllib3 and http.client, classifies each damaged wire:
   must-raise   the framing is incomplete or a chunk-size line is unparseable (`int(tok, 16)` fails),
-               or the framing is complete but the decoder reports an error / a zstd frame is cut;
+               or the framing is complete but the decoder reports an error / a zstd frame is cut
+               (an error after a complete gzip member counts only if the bytes there begin with the
+               gzip magic number: a corrupt further member, not trailing garbage);
   either       the damaged wire is still a complete message for the lenient reader (possibly with a
                different payload), or only a gzip/deflate stream is incomplete.
 Oracle: a must-raise wire never produces an end-of-body signal (b"" / StopIteration / a returned
 read()) before a ProtocolError / IncompleteRead / DecodeError; nothing but urllib3 exceptions ever
 escapes; after a framing-level error the socket is closed at once, and the second request travels
-on a fresh socket and gets its own answer.
+on a fresh socket and gets its own answer.  `drain_conn()` (op `dc`) swallows the exception: after
+it on a wire with framing-level damage the socket is closed (the connection is not released open)
+and the second request travels on a fresh socket.
 Correspondence: the same `resp` lines as C12 on the damaged wire (model-decodable codings).
 """
 from __future__ import annotations
@@ -32,7 +36,10 @@ from .c12 import make_case, drive, canonical, case_line, hx
 
 RAISE_OK = {"ProtocolError", "IncompleteRead", "DecodeError", "InvalidChunkLength"}
 
-PATTERNS = ["rd~", "Lrd3", "Lrd64", "Lr14", "Lr1~", "Lri5", "st3", "st64", "it", "rc7", "rc~", "da", "preload"]
+PATTERNS = ["rd~", "Lrd3", "Lrd64", "Lr14", "Lr1~", "Lri5", "st3", "st64", "it", "rc7", "rc~", "da", "preload", "dc"]
+
+# damage the framing itself shows (the connection is out of step with the peer): closed, never reused
+FRAMING_LEVELS = ("cl-short", "chunked-incomplete", "chunk-line-unparseable")
 
 
 # ------------------------------------------------------------------------------------------------
@@ -103,7 +110,14 @@ def _decode_one(mode, data):
             try:
                 out += o.decompress(data)
             except zlib.error:
-                return ("error" if first else "ok"), out
+                if first:
+                    return "error", out
+                # after a complete member: bytes that do not begin with the gzip magic number are
+                # "trailing garbage" (ignored by gzip(1) with a warning, swallowed by urllib3 — pinned test
+                # test_decode_gzip_swallow_garbage): the stream counts as decodable.  Bytes that do begin
+                # with 1f 8b are a further member for every gzip reader (gzip(1) reports "crc error" /
+                # "invalid compressed data" and fails): the stream is undecodable.
+                return ("gzip-later-member" if data[:2] == b"\x1f\x8b" else "ok"), out
             if not o.eof:
                 return "incomplete", out
             data, first = o.unused_data, False
@@ -168,6 +182,8 @@ def classify(case):
     st = reference_decode(ce_l, body)
     if st == "error":
         return "must-raise", "decoder-error", "decoder reports an error"
+    if st == "gzip-later-member":
+        return "must-raise", "gzip-later-member-corrupt", "a gzip member after the first is corrupt"
     if st == "zstd-incomplete":
         stack = "," in ce_l and not ce_l.replace(" ", "").startswith("zstd")
         return "must-raise", "zstd-incomplete" + ("-inner" if stack else ""), "zstd frame incomplete"
@@ -178,7 +194,7 @@ def classify(case):
 
 
 API = {"rd": "read", "r1": "read1", "ri": "readinto", "st": "stream", "rc": "read_chunked", "it": "iter", "da": "data",
-       "pr": "preload"}
+       "pr": "preload", "dc": "drain_conn"}
 
 
 def api_of(op):
@@ -199,7 +215,8 @@ class C13(Prop):
             "from the first body byte to the last framing byte, (b) every single-byte substitution from a hostile "
             "alphabet in every chunk-size line, (c) single-bit flips at every position of the compressed stream; "
             "x read patterns {read(), loops of read(3) / read(64) / read1(4) / read1() / readinto(5), stream(3), "
-            "stream(64), iteration, read_chunked(7), read_chunked(), .data, preload} and random mixed prefixes; "
+            "stream(64), iteration, read_chunked(7), read_chunked(), .data, preload, drain_conn()} and random mixed "
+            "prefixes; "
             "each followed by release_conn() and a second request on the same pool. quick: all cuts of 30 responses "
             "x 13 patterns + sampled corruptions; thorough: 200 responses. non-trivial = the lenient reference "
             "reader says must-raise")
@@ -309,7 +326,7 @@ class C13(Prop):
                 continue
             cut = rng.randrange(base["head_len"], len(w))
             c = self.damaged(base, "cut", cut)
-            c["ops"] = [o for o in c["ops"][:-3]] + [rng.choice(["rd~", "Lrd7", "Lr13", "Lr1~", "Lri2"])]
+            c["ops"] = [o for o in c["ops"][:-3]] + [rng.choice(["rd~", "Lrd7", "Lr13", "Lr1~", "Lri2", "dc"])]
             yield c
 
     # ---------------------------------------------------------------- execution
@@ -351,6 +368,12 @@ class C13(Prop):
                 for (o, k, v) in run.results:
                     if k == "info" or o == "rd0":
                         continue
+                    if k == "drain":
+                        # drain_conn() is no read API: it returns nothing and swallows the error at the
+                        # caller's request, so neither it nor the reads after it signal an end of body;
+                        # what it owes is the state of the connection (checked below)
+                        api = None
+                        break
                     if k in ("pieces", "data") or o == "rd~" or v == b"":
                         api = api_of(o)
                         break
@@ -363,9 +386,13 @@ class C13(Prop):
                 sig = f"silent-end:zstd-incomplete:{fam}"
             elif level == "zstd-incomplete-inner":
                 sig = "silent-end:zstd-incomplete-inner"       # MultiDecoder.flush only flushes decoders[0]
-            self.record(res, sig,
-                        f"{why}: {api} signalled a normal end of body instead of raising "
-                        f"(damage={case.get('damage')}, coding={case.get('coding')}, seg={case['seg']})", case)
+            elif level == "gzip-later-member-corrupt":
+                # GzipDecoder swallows every zlib.error once the first member is complete, whatever the API
+                sig = "silent-end:gzip-later-member-corrupt"
+            if api is not None:
+                self.record(res, sig,
+                            f"{why}: {api} signalled a normal end of body instead of raising "
+                            f"(damage={case.get('damage')}, coding={case.get('coding')}, seg={case['seg']})", case)
         # the connection
         info = next((v for (o, k, v) in run.results if k == "info"), None)
         framing_err = err in ("ProtocolError", "IncompleteRead", "InvalidChunkLength")
@@ -384,6 +411,25 @@ class C13(Prop):
             elif info.get("body") != b"ok":
                 self.record(res, "second-request-wrong-answer", f"second request got {info.get('body')!r}", case)
             elif framing_err and (info.get("nsocks") != 2 or not info["first_closed"]):
+                self.record(res, "second-request-not-on-fresh-socket",
+                            f"sockets={info.get('nsocks')} first_closed={info['first_closed']}", case)
+        # drain_conn() on a damaged response: no exception reaches the caller, the verdict is the state of
+        # the connection — after damage at the framing level the socket is closed by the time drain_conn()
+        # returns (not released open), and the next request travels on a fresh socket
+        drained = any(k == "drain" for (o, k, v) in run.results)
+        if info is not None and drained and err is None:
+            res.bump("drained:" + verdict + ":" + level)
+            broken = verdict == "must-raise" and level in FRAMING_LEVELS
+            if broken and not info["first_closed_before"]:
+                self.record(res, f"conn-left-open-after:drain_conn:{fr}",
+                            f"drain_conn() on a response with {why} returned with the socket still open "
+                            f"(released={run.final})", case)
+            if info.get("exc"):
+                self.record(res, f"second-request-failed:{info['exc']}",
+                            f"the request after drain_conn() on the damaged response raised {info['exc']}", case)
+            elif info.get("body") != b"ok":
+                self.record(res, "second-request-wrong-answer", f"second request got {info.get('body')!r}", case)
+            elif broken and (info.get("nsocks") != 2 or not info["first_closed"]):
                 self.record(res, "second-request-not-on-fresh-socket",
                             f"sockets={info.get('nsocks')} first_closed={info['first_closed']}", case)
         self._verdict = verdict
